@@ -62,6 +62,7 @@ def outD : Except (DErr × List Ev) DFlow → Option (Out × List Ev)
   | .error (.exn e, t) => some (.raised e, t)
   | .error (_, _) => none
   | .ok (.returned (.pair (.bool true) (.dictPayload kvs)) st) => some (.valid (.dict 0 kvs), st.tr)
+  | .ok (.returned (.pair (.bool true) (.built v)) st) => some (.valid v, st.tr)
   | .ok (.returned (.pair (.bool false) (.invalid e)) st) => some (.invalid e, st.tr)
   | .ok _ => none
 
@@ -684,9 +685,9 @@ theorem src_dictany_init : Src.dictAnyInit =
 /-! ### non-vacuity: `DictValidatorAny({"a": IntValidator(), "b": KeyNotRequired(StringValidator())})` on `{"a": "x"}` -/
 
 example : runDictAnyMethod
-      ⟨1, [.str [97], .str [98]],
-          [fun y => some (scalarStep default .sync 2 .int none [] [] [] y), fun y => some (scalarStep default .sync 3 .str none [] [] [] y)],
-          [true, false], none, none, false⟩ Src.dictAnySync (.dict 9 [(.str [97], .str [120])]) =
+      { vid := 1, keys := [.str [97], .str [98]],
+        evs := [fun y => some (scalarStep default .sync 2 .int none [] [] [] y), fun y => some (scalarStep default .sync 3 .str none [] [] [] y)],
+        reqs := [true, false], oc := none, aoc := none, failUnknown := false } Src.dictAnySync (.dict 9 [(.str [97], .str [120])]) =
     some (.invalid (.mk (.keys [.str [97]]) (.dict 9 [(.str [97], .str [120])]) 1 [.mk (.type .int) (.str [120]) 2 []]), []) := by
   rw [src_dictany_sync default]; rfl
 
